@@ -42,7 +42,7 @@ func init() {
 			"strings are valid UTF-8 / well-formed UTF-16 (the API documents UTF-8); lone surrogates are out of scope",
 			"Export's doc comment is the contract: undefined/null -> nil, boolean -> bool, number -> some Go number type (compared by exact value), string -> string, Array -> a slice (element type not compared: the pinned suite asserts []int64 / []string for homogeneous arrays), Object -> a string-keyed map; bridged Go containers come back as the identical Go value",
 			"ToInteger of NaN is 0 and of values beyond the int64 range saturates (value_number.go documents 'Infinity => 2**63-1'); within range it is ES5 9.4 truncation; for Go integers it is the exact integer",
-			"ToString / String(x) / JSON.stringify(x) of numbers are verified against ES5.1 9.8.1 (value, layout, minimal digit count) by internal/refbridge, not generated; x|0 and x>>>0 are compared for |x| < 2^63 only (larger magnitudes are a C05 finding)",
+			"ToString / String(x) / JSON.stringify(x) of numbers are verified against ES5.1 9.8.1 (value, layout, minimal digit count) by internal/refbridge, not generated; x|0 and x>>>0 are compared with ES5 9.5/9.6 computed with math/big over the whole range",
 			"MarshalJSON is re-read with the harness's own JSON reader and compared under Go's JSON conventions for bridged values; non-finite floats may be an error or null",
 			"numeric strings understood by Go but not by ES5 9.3.1 (\"inf\", \"1_0\", hex floats, hex beyond 2^63) are not generated: C05/C06 own them",
 		},
@@ -519,10 +519,8 @@ func (k *checker) goNumber(g rb.GV, bv reflect.Value, val otto.Value) {
 		k.fail("go:script:JSON.stringify", "ES5 9.8.1 string of "+ox.Num(d), str, err.Error())
 	}
 	k.eqs("go:script:x+0", "n:"+ox.Num(d+0), ev[5])
-	if math.Abs(d) < 9223372036854775808.0 || d != d || math.IsInf(d, 0) {
-		i32 := toInt32(d)
-		k.eqs("go:script:x|0,x>>>0", "n:"+ox.Num(float64(i32))+",n:"+ox.Num(float64(uint32(i32))), ev[6])
-	}
+	i32 := toInt32(d) // ES5 9.5 / 9.6 over the whole double range
+	k.eqs("go:script:x|0,x>>>0", "n:"+ox.Num(float64(i32))+",n:"+ox.Num(float64(uint32(i32))), ev[6])
 	k.eqs("go:script:-x", "n:"+ox.Num(-d), ev[7])
 	k.eqs("go:script:x==literal", "b:true", ev[8])
 }
